@@ -312,10 +312,15 @@ class workq:
         else:
             ev = event.AsyncResult()
             self._waiters.append((channels, ev))
+            delivered = False
             try:
                 j = ev.get()
+                delivered = True
             finally:
                 self._waiters.remove((channels, ev))
+                if not delivered and ev.successful() and not ev.value.done:
+                    # interrupted (client gone) after a push handed us a job: put it back
+                    self.pushjob(ev.value)
 
         return j
 
